@@ -23,7 +23,7 @@ NEW, RUNNABLE, BLOCKED, SLEEPING, DONE = "new", "runnable", "blocked", "sleeping
 
 class Task:
     __slots__ = ("idx", "name", "fn", "state", "baton", "aborting", "waiting_on",
-                 "wake_at", "exc", "thread", "daemon", "prio", "woke_by_timer", "op")
+                 "wake_at", "exc", "thread", "daemon", "prio", "woke_by_timer", "op", "held")
 
     def __init__(self, idx, name, fn, daemon=False):
         self.idx, self.name, self.fn, self.daemon = idx, name, fn, daemon
@@ -38,6 +38,7 @@ class Task:
         self.prio = 0
         self.woke_by_timer = False
         self.op = None            # description of the operation in flight (for probes)
+        self.held = 0             # sim locks currently held
 
 
 class Sched:
@@ -122,6 +123,12 @@ class Sched:
     def _foreground_left(self):
         return any(t.state != DONE and not t.daemon for t in self.tasks)
 
+    def _drain(self):
+        for t in self.tasks:
+            if t.state == RUNNABLE:
+                return t
+        return None
+
     def _candidates(self):
         run = [t for t in self.tasks if t.state == RUNNABLE]
         sl = [t for t in self.tasks if t.state == SLEEPING]
@@ -187,6 +194,8 @@ class Sched:
                 CLOCK.now, CLOCK.covered = t.wake_at, CLOCK.covered + (t.wake_at - CLOCK.now)
             self.timer_fires += 1
             self.k.fault("timer_fire")
+            if any(x.held for x in self.tasks):
+                self.k.probe("timer_fired_while_a_lock_was_held")
             self._fire_timers()
         self.cur = t
         t.baton.release()
@@ -204,6 +213,8 @@ class Sched:
         self.ctx_switches += 1
         if cur.op is not None and cur.state != DONE:
             self.preempt_in_op += 1
+        if cur.held and cur.state == RUNNABLE:
+            self.k.probe("preempted_while_holding_a_lock")
         self._resume(nxt)
         cur.baton.acquire()
         self.cur = cur
@@ -220,6 +231,8 @@ class Sched:
             self._verdict(("step_budget", self.steps))
             raise SimAbort()
         self.after_lock += 1
+        if not self._foreground_left():
+            return   # draining: background tasks just run on to their next wait
         nxt = self._choose(cur)
         if nxt is not None and nxt is not cur:
             self.k.fault("preempt")
@@ -233,6 +246,15 @@ class Sched:
             cur.state = BLOCKED
         else:
             cur.state, cur.wake_at = SLEEPING, until
+        if not self._foreground_left():
+            # draining: let the other runnable background tasks reach a wait, then tear down
+            nxt = self._drain()
+            if nxt is None:
+                self._verdict(("done", None))
+                cur.state = RUNNABLE
+                raise SimAbort()
+            self._switch(cur, nxt)
+            return
         nxt = self._choose(None)
         if nxt is None:
             self._verdict(("deadlock", self._chain(cur)))
@@ -281,11 +303,13 @@ class Sched:
     def _task_exit(self, t: Task):
         """t finished: pass the baton on, or end the run."""
         if self.verdict is None and not self._foreground_left():
-            # only daemon tasks remain: tear them down without a verdict
-            for d in self.tasks:
-                if d.state != DONE:
-                    d.aborting = True
-            self.verdict = ("done", None)
+            # only daemon tasks remain: a daemon caught mid-operation first runs on to its next wait
+            # (aborting it there would leave a half-applied operation in the history), then teardown
+            nxt = self._drain()
+            if nxt is not None:
+                self._resume(nxt)
+                return
+            self._verdict(("done", None))
         if self.verdict is not None:
             for n in self.tasks:
                 if n.state != DONE:
@@ -377,6 +401,7 @@ class SimLock:
             s.k.fault("lock_contention")
             s.block(t, self, until=deadline)
         self.owner, self.count = t, 1
+        t.held += 1
         s.after_lock = 0
         return True
 
@@ -397,6 +422,8 @@ class SimLock:
         if self.count > 1:
             self.count -= 1
             return
+        if self.owner is t:
+            t.held -= 1
         self.owner, self.count = None, 0
         s._wake(self)
         s.yield_point()
